@@ -325,7 +325,7 @@ func enumEngine(w *run.Worker) {
 			return
 		}
 		n := wd.run()
-		if wd.reps[0].storm || wd.reps[1].storm {
+		if wd.reps[0].stormed() || wd.reps[1].stormed() {
 			return // already reported; the failure positions would be meaningless
 		}
 		for rep := 0; rep < 2; rep++ {
@@ -461,17 +461,17 @@ func concEngine(w *run.Worker) {
 		w.Distinct(fmt.Sprintf("conc|%v|%d/%d|%x", sc.kinds, sc.repl[0], sc.repl[1], h.Sum64()))
 
 		for _, rep := range wd.reps {
-			if len(rep.corruptPuts) > 0 {
+			if bad := rep.corrupt(); len(bad) > 0 {
 				w.Count("local_store_corrupt_puts", 1)
-				c.Violation("localStore("+rep.kind+").Put:acknowledged-upload-reads-back-wrong", "%s", strings.Join(rep.corruptPuts, "\n"))
+				c.Violation("localStore("+rep.kind+").Put:acknowledged-upload-reads-back-wrong", "%s", strings.Join(bad, "\n"))
 				return
 			}
 		}
-		if wd.reps[0].storm || wd.reps[1].storm {
+		if wd.reps[0].stormed() || wd.reps[1].stormed() {
 			c.Violation("mirroredBlobAccess(concurrent):unbounded-replica-calls", "more than %d calls to one replica", wd.reps[0].opLimit)
 			return
 		}
-		if wd.reps[0].sizePanics+wd.reps[1].sizePanics > 0 {
+		if wd.reps[0].nSizePanics()+wd.reps[1].nSizePanics() > 0 {
 			w.Count("p1_sink_size_panics", 1)
 			c.Violation(sigP1, "concurrent clients: an upload buffer handed to a replica for a repair panics in GetSizeBytes")
 			return
